@@ -490,7 +490,7 @@ func acConcurrency(c *ev.Ctx) {
 func acMemBursts(c *ev.Ctx, dir string) {
 	outFile := filepath.Join(c.Scratch, "hist-ac-mem.ndjson")
 	self, _ := os.Executable()
-	nh := c.Pick(80, 800)
+	nh := c.Pick(80, 2000)
 	cout, cerr := execOutput(self, "-child", "stress-fs", fmt.Sprint(c.Seed+77), "mem", fmt.Sprint(nh), "3", c.Scratch, outFile)
 	if strings.Contains(cout, "fatal error: concurrent map") {
 		c.Violation("memfs-crash", "the Go runtime aborted concurrent MemFs.AtomicCreate callers with a concurrent map access\n"+tlc.Tail(cout, 30), map[string]string{"crash.txt": cout})
